@@ -159,6 +159,12 @@ pub fn run_case(sink: &mut Sink, header: &str, cfg: engine::Cfg, mut next: impl 
     }
     sink.flush();
     beat(None);
+    // terminal probe of the real blocking behaviour of the command channel (state printed as it was before the probe)
+    let before_probe = engine.snapshot();
+    if let Some((event, observed)) = engine.terminal_probe() {
+        writeln!(sink.input, "E {}", event).unwrap();
+        writeln!(sink.implementation, "R {} | {}", observed, before_probe.text).unwrap();
+    }
     let panics: Vec<String> = std::mem::take(&mut *PANIC_LOG.lock().unwrap());
     for panic in panics { sink.both(&format!("# panic {}", panic)); }
     match engine.finish() {
@@ -192,7 +198,20 @@ fn main() {
                 let mut generator = gen::Generator::new(case_seed, &profile);
                 let cfg = generator.cfg();
                 let header = format!("# case seed={} profile={}", case_seed, profile);
-                if !run_case(&mut sink, &header, cfg, |engine, snapshot, step| generator.next(engine, snapshot, step)) { ok = false; break; }
+                // every third case with a small command queue ends by filling the queue until a client parks at the full
+                // queue, so that the terminal probe exercises the REAL blocking send (otherwise it probes the idle worker)
+                let fill_limit = if cfg.cmdcap <= 4 && case % 3 == 0 { cfg.cmdcap as u64 + 2 } else { 0 };
+                let mut filled = 0u64;
+                let mut generator_done = false;
+                if !run_case(&mut sink, &header, cfg, |engine, snapshot, step| match if generator_done { None } else { generator.next(engine, snapshot, step) } {
+                    Some(ev) => Some(ev),
+                    None => {
+                        generator_done = true;
+                        if filled >= fill_limit || engine.parked.iter().any(|parked| *parked) { return None; }
+                        filled += 1;
+                        engine.free_client().map(|client| Ev::PutW(client, 900 + filled, 9000 + filled, 1))
+                    }
+                }) { ok = false; break; }
             }
             sink.flush();
             ok
